@@ -3,6 +3,8 @@ package hxtimers
 import (
 	"fmt"
 	"hash/fnv"
+	"strings"
+	"time"
 
 	"verifharness/hxlib"
 )
@@ -15,6 +17,7 @@ type Exec struct {
 	Findings []Finding
 	Ref      *Ref
 	Ran      int // ops actually run (a panic ends the case)
+	Skipped  bool // the case needs a pre-positioned id counter and the scheduler has no such field
 }
 
 // Run executes the case on a fresh real scheduler and evaluates the property on every observation.
@@ -45,10 +48,26 @@ func Run(c Case, strictOrder bool) *Exec {
 		}
 		bound = int(b)
 	}
+	if c.Live {
+		bound = c.Cbuf
+		if bound < 1 {
+			bound = 1
+		}
+	}
 	real := NewReal(c, bound)
 	defer real.Close()
+	if c.Live {
+		real.Watchdog = 40 * time.Second
+	} else if c.NextID > 0 {
+		real.Watchdog = 10 * time.Second
+	}
 	e.Ref = NewRef(c, func(key, what string) { e.Findings = append(e.Findings, Finding{key, what}) })
 	e.Ref.StrictOrder = strictOrder
+	e.Ref.Cbuf = bound
+	if c.NextID > 0 && !real.PrePositioned {
+		e.Skipped = true
+		return e
+	}
 	for _, o := range c.Ops {
 		ob := real.Do(o)
 		e.Obs = append(e.Obs, ob)
@@ -73,10 +92,15 @@ func (c Case) Key() string {
 
 // Shrink removes ops while a finding with the same key survives.
 func Shrink(c Case, key string, strictOrder bool) Case {
-	if len(c.Ops) > 400 {
+	if len(c.Ops) > 2000 {
 		return c
 	}
+	// (live cases and hangs are slow to re-run: shrinking stops when its time is up)
+	stop := time.Now().Add(15 * time.Second)
 	has := func(cc Case) bool {
+		if time.Now().After(stop) {
+			return false
+		}
 		for _, f := range Run(cc, strictOrder).Findings {
 			if f.Key == key {
 				return true
@@ -134,6 +158,10 @@ func Emit(r *hxlib.Run, c Case, model, strictOrder bool) *Exec {
 		reported[f.Key]++
 		if reported[f.Key] > 3 { // hxlib keeps three per key: count the rest without shrinking them
 			r.Fail(f.Key, f.What, nil)
+			continue
+		}
+		if strings.HasPrefix(f.Key, "hang:") { // every re-run would wait for the watchdog again
+			r.Fail(f.Key, f.What, c)
 			continue
 		}
 		small := Shrink(c, f.Key, strictOrder)
